@@ -108,7 +108,7 @@ class CodecTarget(Target):
 
     def __init__(self, id, cls, *, view=None, transient=None, read_skips_tag=True, field_types=None, nested_readers=(), extra_overrides=None,
                  read_args=None, requires=None, note="", deterministic=False, field_invs=None, writer="write", reader="read", timeout=600,
-                 construct=False, after_construct=None, init_types=None):
+                 construct=False, after_construct=None, init_types=None, write_args=None):
         self.cls = cls
         self.view = view or {}
         self.transient = transient or {}
@@ -121,6 +121,7 @@ class CodecTarget(Target):
         self.construct = construct
         self.after_construct = after_construct
         self.init_types = init_types or {}
+        self.write_args = write_args  # fn(I, env) -> extra positional arguments of the writer
         ov = prim_overrides()
         ov.update(extra_overrides or {})
         super().__init__(id, f"{cls.__module__}:{cls.__qualname__}.{writer}", self.setup_rt, ensures=[("dummy", lambda I, env, r: None)], raises=(),
@@ -148,6 +149,8 @@ class CodecTarget(Target):
             I.codec.root = self_obj
             buf = SBuf()
             env = {"args": [self_obj, buf], "self": self_obj, "buf": buf}
+            if outer.write_args:
+                env["args"] = env["args"] + list(outer.write_args(I, env))
             if outer.requires:
                 outer.requires(I, env)
             return env
